@@ -7,7 +7,8 @@ from .c04 import ASSUME
 
 
 def _alloc_threads(job):
-    kind, seed, stick, workdir = job
+    kind, seed, stick, workdir = job[:4]
+    lines = len(job) > 4 and job[4]
     import shutil
     from .. import sched
     from ..concretize import u64
@@ -26,6 +27,10 @@ def _alloc_threads(job):
         st = DemoStorage()
     start = u64(st.new_oid())
     Sc = sched.S = sched.Sched(seed, stick=stick)
+    if lines:
+        # line granularity inside the allocators and the helpers they are wrapped in: a new_oid that is not atomic
+        # although it takes (or should take) the storage lock shows as a duplicate / non-linearizable result
+        Sc.trace_lines(lambda code: code.co_name in ('new_oid', '__call__', 'set_max_oid') and 'ZODB' in code.co_filename)
     trace = [{'ev': 'Start', 'start': start}]
 
     def body():
@@ -106,6 +111,10 @@ def run(ctx):
         c = sd.consts(kind, Cls=cls, **big)
         files = S.simulate(ctx, kind, c, num=num, depth=60, seed=ctx.seed + 13, next_='NextOid')
         res = S.replay_all(ctx, files, kind, c)
+        if kind == 'file':
+            # the same behaviours with the oids spread over several buckets of the two-level oid index (stride 65537):
+            # "records copied in with arbitrary ids ... after a close and reopen, everything stored before"
+            res += S.replay_all(ctx, files[::2], kind, c, opts={'oid_stride': 65537, 'stride_new_oid': True}, tag='stride')
         cov[kind] = S.judge(ctx, res, kind, focus=lambda r: r['actions'].get('NewOid', 0) >= 2)
         cov[kind]['sample'] = res[0]['sig'][:25]
     # concurrent allocators: real threads under the scheduler (switching where a lock is acquired); the calls in
@@ -113,7 +122,7 @@ def run(ctx):
     import os
     from .. import par, tlc
     jobs = [(kind, ctx.seed * 100 + i, (0.2, 0.5, 0.8)[i % 3]) for i in range(120 if q else 3000) for kind in ('file', 'mapping', 'demo')]
-    sres = par.pmap(_alloc_threads, [j + (os.path.join(ctx.scratch, 'al-%d' % n),) for n, j in enumerate(jobs)], chunksize=8)
+    sres = par.pmap(_alloc_threads, [j + (os.path.join(ctx.scratch, 'al-%d' % n), n % 2 == 1) for n, j in enumerate(jobs)], chunksize=8)
     traces = [r['trace'] for r in sres]
     accepted, rejected, tr = tlc.validate_traces('ZOidTrace', traces, os.path.join(ctx.scratch, 'tv'))
     ctx.add_tlc('ZOidTrace-validation', tr)
@@ -138,8 +147,10 @@ def run(ctx):
         'rule': 'TLC -simulate behaviours of ZStorage under NextOid: new_oid interleaved with stores and restores of '
                 'arbitrary (never issued, larger) oids, aborts, commits and close/reopen; the oid returned by the real '
                 'new_oid must equal the specification (whose action property OidFresh TLC checks) and an independent '
-                'monitor requires it to be new for the session and absent from the storage; 3 allocator threads x 3 calls on '
-                'FileStorage, MappingStorage and DemoStorage run under the cooperative scheduler (seeded schedules), the calls '
+                'monitor requires it to be new for the session and absent from the storage (also with the oids spread over several '
+                'buckets of the oid index, stride 65537); 3 allocator threads x 3 calls on '
+                'FileStorage, MappingStorage and DemoStorage run under the cooperative scheduler (seeded schedules; every second run '
+                'also switches at every source line inside new_oid and the lock decorator), the calls '
                 'in completion order are validated by TLC against the atomic NewOid (ZOidTrace; demo: distinctness only, its '
                 'ids are random); allocation scenarios of ZDemo (ids of the base, of the changes, issued ones, ids issued to aborted '
                 'transactions, across push/pop) are evaluated by TLC and replayed on DemoStorage stacks, new_oid judged by the '
